@@ -234,9 +234,9 @@ R7RS leaves the order of the checks of a procedure call unspecified.  The refere
 `eval_expression` for a call that is not in tail position) reports a non-procedure operator
 before an operand error and locates it at the operator; the trampoline of `apply_procedure`
 evaluates a pending tail call with `eval_procedure_call`, which reports the operand error first
-and an unlocated non-procedure error.  So the two agree exactly on every value and on every error
-except that where the reference reports `nonProcedure` the model may report that call's operand
-error, or `nonProcedure` with another location. -/
+(and the non-procedure error, located at the operator too, only when all operands evaluate).  So
+the two agree exactly on every value and on every error except that where the reference reports
+`nonProcedure` the model may report that call's operand error instead. -/
 def AgreeErr (model ref : SErr) : Prop := model = ref ∨ ∃ l, ref = (.nonProcedure, l)
 
 /-- equal values; errors equal up to `AgreeErr` -/
